@@ -100,6 +100,13 @@ def build():
             old(self).error is None ==> proxy_outcome(*old(self), *final(self), pfr(*old(self), request.code(), *body, opt_rawfds(fds)), r is Ok), // [C18,C01]
             r is Ok ==> r->Ok_0 == 0,""")
     u.raw("}")
+    span0 = br.impl_span(r'^impl Backend$')
+    u.raw("impl Backend {")
+    for nm, fld, val in (("set_reply_ack_flag", "reply_ack_negotiated", "enable"), ("set_shared_object_flag", "shared_object_negotiated", "enable"),
+                         ("set_shmem_flag", "shmem_negotiated", "enable"), ("set_failed", "error", "Some(error)")):
+        u.extracted_fn(br, nm, within=span0, sig_rw=SIG_RW, body_rw=BODY_RW, contract="""
+        ensures final(self).acq@ == old(self).acq@ + 1, final(self).inner_.%s == %s, final(self).inner_.sock == old(self).inner_.sock // [C10,C18] one acquisition, only this field""" % (fld, val))
+    u.raw("}")
     span = br.impl_span(r'^impl VhostUserFrontendReqHandler for Backend$')
     u.raw("impl Backend {")
     for name, c in PROXY.items():
